@@ -451,6 +451,12 @@ func isHarnessPanic(out string) bool {
 		if k == 0 || strings.HasPrefix(lines[k-1], "panic(") || strings.Contains(l, "/runtime/") || strings.HasPrefix(lines[k-1], "runtime.") {
 			continue
 		}
+		// the drop-in sync/atomic replacements panic on behalf of their caller
+		// ("unlock of unlocked mutex" is a fatal error of the real sync.Mutex): the
+		// frame that decides is the one that called them
+		if strings.Contains(l, "/internal/simrt/simsync/") || strings.Contains(l, "/internal/simrt/simatomic/") {
+			continue
+		}
 		return strings.Contains(l, "zz_verif_") || strings.Contains(l, "/internal/simrt/")
 	}
 	return false
